@@ -24,6 +24,8 @@ pub struct RunOutput {
 pub fn dispatch(prop: &str, ctx: &mut RunCtx<'_>) -> Option<Violation> {
     match prop {
         "C01" => crate::c01::run(ctx),
+        "C04" => crate::c04::run(ctx),
+        "C19" => crate::c04::run_uper(ctx, true),
         other => Some(Violation { signature: format!("HARNESS/unknown-property/{other}"), detail: String::new() }),
     }
 }
